@@ -141,7 +141,7 @@ class SceneSpec:
         world = "".join(geom_xml(g) for g in bodies[0].geoms)
         rest = "".join(body_xml(c) for c in children[0])
         asset = "".join('<mesh name="%s" vertex="%s"/>' % (n, " ".join("%.17g" % x for x in np.asarray(v).ravel())) for n, v in meshes.items())
-        xml = '<mujoco><option o_margin="%.17g" gravity="0 0 0"><flag sleep="%s"/></option><size memory="2M"/>' % (
+        xml = '<mujoco><option o_margin="%.17g" gravity="0 0 0"><flag sleep="%s"/></option><size memory="400K"/>' % (
             self.o_margin, "enable" if self.sleep else "disable")
         if asset:
             xml += "<asset>" + asset + "</asset>"
@@ -567,7 +567,7 @@ def _l2_chunk(chunk):
         label = "L2 kinds=%s masks=%s two=%d" % ("".join(kinds), "".join("%d%d" % mk for mk in masks), twogeom)
         rp = {"xml": cs.xml, "label": label}
         lists = {}
-        for k, (dis, en) in enumerate(FLAGSETS_SMALL if twogeom == 2 else FLAGSETS_FULL):
+        for k, (dis, en) in enumerate(FLAGSETS_FULL if twogeom == 1 else FLAGSETS_SMALL):
             lists[(dis, en)] = evaluate(cs, part, label, dis, en, rp, check_fresh=(k == 0))
         midphase_order(part, lists, label, rp)
         cs.free()
@@ -721,8 +721,8 @@ def run(ctx):
     core.pmap(ctx, _l4_chunk, items, nchunks=len(items))
     ctx.rule = ("L1: %d (model, spacing) items = (5 shape sets x 3 margin/gap variants x kind sets) x spacing 2r+M+{-0.2,-1e-6,-1e-8,+1e-8,+1e-6} x ALL 9^n "
                 "placements of the movable bodies on the grid {0,1,2}^2 x {default, midphase off, (1/3) override}; L2: every kind tuple over "
-                "{F,S,M}x{F,S,M,C,W}^(n-1) x every mask assignment from {(1,1),(1,2),(2,1),(0,0)}^n x {1,2 geoms/body, plane owned by a static/mocap body} for n=3 (n=4: %s) x 10 (4) flag "
-                "settings; L3: n=3, every kind tuple x mask patterns x {explicit pair (2 parameter sets) on every geom pair, exclude on every "
+                "{F,S,M}x{F,S,M,C,W}^(n-1) x every mask assignment from {(1,1),(1,2),(2,1),(0,0)}^n x {1,2 geoms/body, plane owned by a static/mocap body} for n=3 (n=4: %s) x 10 flag settings "
+                "(2 geoms/body) or 4 (others); L3: n=3, every kind tuple x mask patterns x {explicit pair (2 parameter sets) on every geom pair, exclude on every "
                 "body pair, exclude+pair} x 4 flag settings (mask patterns: %s); L4: sleep enabled, 1-2 trees initialised asleep (+mocap), 0-2 explicit pairs, all "
                 "placements of the awake bodies x midphase on/off. non-trivial = evaluation whose expected set is neither empty nor all pairs"
                 % (ctx.extra["L1_models"], "all masks" if ctx.thorough else "2 uniform masks",
